@@ -166,6 +166,18 @@ func verifyFunc(reg *Registry, pkgRel, key string, closureOrd int) (rep FuncRepo
 	if closureOrd > 0 {
 		env.fr = fr // captured locals of the enclosing function are visible by name
 	}
+	// `flag lemmas=a,b`: lemmas without uninterpreted functions (pure arithmetic) are not picked up by the
+	// relevance filter; a function that needs one names it, and the proved lemma is assumed at entry. The lemma
+	// must have been turned into obligations of this run (lemma_packages of the property).
+	if ls := c.Flags["lemmas"]; ls != "" {
+		for _, ln := range strings.Split(ls, ",") {
+			t := reg.lemmaTerms[pkg.PkgPath+"."+strings.TrimSpace(ln)]
+			if t == nil {
+				specFail("flag lemmas: lemma %s of %s is not proved in this run (lemma_packages)", ln, pkg.PkgPath)
+			}
+			st.assume(t)
+		}
+	}
 	for _, cl := range c.Clauses {
 		if cl.Kind == "requires" {
 			st.assume(env.evalBool(cl.Expr))
@@ -350,6 +362,10 @@ func (reg *Registry) lemmaObligations(pkgRel string) (obls []*Obligation, proven
 			a := axiomTerm{Name: "lemma:" + lm.Name, T: t, ufs: map[string]bool{}}
 			termUFs(t, a.ufs)
 			proven = append(proven, a)
+			if reg.lemmaTerms == nil {
+				reg.lemmaTerms = map[string]*Term{}
+			}
+			reg.lemmaTerms[p+"."+strings.SplitN(lm.Name, "@", 2)[0]] = t
 		}()
 	}
 	return
